@@ -57,7 +57,48 @@ def expected_lines(query, data, h, mode=None):
 
 def explore(ctx):
     quick = ctx['tier'] == 'quick'
-    return run_live(ctx, QUERIES, 56 if quick else 700)
+    res = run_live(ctx, QUERIES, 56 if quick else 700)
+    res['known_lines'] = known_histories(ctx, res['failures'])
+    return res
+
+
+def known_histories(ctx, failures):
+    """KF-34 and KF-36 are histories on a terminal: replayed here; still present -> a KNOWN-FINDING line, and a violation
+    if the class is not listed in known_findings.json"""
+    lines = []
+    known = ctx.get('known_classes', ())
+    # KF-34: a frame line wider than the terminal (-o json) leaves its wrapped rows behind
+    keys = ['key-%02d-xxxxx' % i for i in range(6)]
+    b1 = b''.join(json.dumps({'k': k}).encode() + b'\n' for k in keys[:3])
+    b2 = b''.join(json.dumps({'k': k}).encode() + b'\n' for k in keys)
+    o = ptydrive.run_pty('* | json | count by k', [(b1, 0.3), (b2, 0.3)], 24, 40, mode='json')
+    scr = ptydrive.emulate_many([(24, 40, o['out'])])[0]
+    text = ''.join(l.rstrip() for l in (scr['lines'] if scr else []))
+    want = aglib.run_impl_one('* | json | count by k', b1 + b2, 'json')['out'].decode('utf8', 'replace').strip()
+    if scr is not None and text != want:
+        if 'frame_line_wider_than_terminal' in known:
+            lines.append('KF-34 a live frame with a line wider than the terminal (-o json: the whole table is one line) wraps, and the erase sequence, '
+                         'which counts newlines, leaves its upper rows on the screen [history: -o json, 24x40 terminal, count by k over 6 keys in two bursts: '
+                         'final screen holds %d characters, the final table %d]' % (len(text), len(want)))
+        else:
+            failures.append({'kind': 'spec', 'what': '-o json on a 24x40 terminal: the final screen is not the final table (residue of wrapped frames)',
+                             'payload': {'query': '* | json | count by k', 'output_mode': 'json', 'terminal': [24, 40], 'screen': scr['lines']}})
+    # KF-36: stderr on the same terminal
+    o = ptydrive.run_pty('* | json | count by k', [(b'{"k":"a"}\n', 0.3), (b'not json\n', 0.3), (b'{"k":"b"}\n', 0.3)], 24, 80, stderr_to_pty=True)
+    scr = ptydrive.emulate_many([(24, 80, o['out'])])[0]
+    got = [norm(l) for l in (scr['lines'] if scr else [])]
+    while got and got[-1] == '':
+        got.pop()
+    want2, _ = expected_lines('* | json | count by k', b'{"k":"a"}\n{"k":"b"}\n', 24)
+    tbl = [l for l in got if not l.startswith('error:')]
+    if scr is not None and tbl != want2:
+        if 'stderr_shares_the_terminal' in known:
+            lines.append('KF-36 an `error:` line written to stderr on the same terminal moves the cursor: the next refresh erases from the wrong row and a stale '
+                         'table line stays [history: count by k on a 24x80 terminal, a non-JSON line between two bursts: screen %r]' % (got[:6],))
+        else:
+            failures.append({'kind': 'spec', 'what': 'stderr on the same terminal: the final screen shows %r, the final table is %r' % (got[:6], want2),
+                             'payload': {'query': '* | json | count by k', 'terminal': [24, 80], 'screen': scr['lines']}})
+    return lines
 
 
 def run_live(ctx, queries, n):
@@ -109,6 +150,20 @@ def run_live(ctx, queries, n):
         c = Case('e%d' % i, STAR, stages, [l.decode('utf8') for l in first + later])
         c.omode = None
         jobs.append((c, sched, rng.choice([8, 24]), rng.choice([80, 120]), None))
+
+    # a wide value that is on screen at an early refresh and has dropped out of the table at the end (top-N, where):
+    # the final table is laid out for the rows it shows -- the cells that fit are shown in full
+    for i in range(4 if n < 100 else 30):
+        tail = rng.choice([[('sort', [col('_count')], 'desc'), ('limit', 1)], [('where', ('cmp', 'gt', col('_count'), lit(3)))], [('limit', 1)]])
+        stages = [('json', None), ('agg', [(None, ('count', None))], [(None, col('a')), (None, col('b'))])] + tail
+        wide = rng.choice([90, 120, 200])
+        first = [json.dumps({'id': j, 'a': 'L' * wide, 'b': 's'}).encode() + b'\n' for j in range(3)]
+        mlen = rng.choice([30, 40])
+        later = [json.dumps({'id': 10 + j, 'a': 't', 'b': 'M' * mlen}).encode() + b'\n' for j in range(5)]
+        sched = [(b''.join(first), rng.choice([0.3, 0.6])), (b''.join(later), 0.0)]
+        c = Case('w%d' % i, STAR, stages, [l.decode('utf8') for l in first + later])
+        c.omode = None
+        jobs.append((c, sched, 24, rng.choice([80, 100]), None))
 
     def run(job):
         c, sched, h, w, cp = job
